@@ -51,6 +51,9 @@ type ParkStore struct {
 	log   []Write
 	rmu   sync.Mutex
 	rules []*ParkRule
+	// Jitter, when set, runs before every Put reaches the DB (outside all locks): the
+	// harness uses it for seeded yields / microsleeps, i.e. varying store latency.
+	Jitter func(key string)
 }
 
 var _ storage.StateStorer = (*ParkStore)(nil)
@@ -110,6 +113,9 @@ func (p *ParkStore) Get(key string, i interface{}) error { return p.inner.Get(ke
 
 func (p *ParkStore) Put(key string, i interface{}) error {
 	p.gate(key, i)
+	if j := p.Jitter; j != nil {
+		j(key)
+	}
 	p.mu.Lock()
 	defer p.mu.Unlock()
 	start := p.clock.Now()
@@ -172,4 +178,38 @@ func (p *ParkStore) Snapshot(k int) (storage.StateStorer, error) {
 		}
 	}
 	return s, nil
+}
+
+// SnapshotInto is Snapshot into an existing scratch store: dst is wiped first. Opening a
+// leveldb store costs tens of milliseconds (it clears its write buffer), so checks that
+// restart hundreds of times reuse one scratch store.
+func (p *ParkStore) SnapshotInto(dst storage.StateStorer, k int) error {
+	p.mu.Lock()
+	ws := append(append([]Write(nil), p.base...), p.log[:k]...)
+	p.mu.Unlock()
+	var keys [][]byte
+	if err := dst.Iterate("", func(key, _ []byte) (bool, error) {
+		keys = append(keys, append([]byte(nil), key...))
+		return false, nil
+	}); err != nil {
+		return err
+	}
+	db := dst.DB()
+	for _, key := range keys {
+		if err := db.Delete(driver.Key{Data: key}); err != nil {
+			return err
+		}
+	}
+	for _, w := range ws {
+		var err error
+		if w.Del {
+			err = db.Delete(driver.Key{Data: []byte(w.Key)})
+		} else {
+			err = db.Put(driver.Key{Data: []byte(w.Key)}, driver.Value{Data: w.Val})
+		}
+		if err != nil {
+			return err
+		}
+	}
+	return nil
 }
